@@ -364,6 +364,182 @@ impl<'this> Decoder<'this> {
     }
 }
 
+/// Verification-only entry points (compiled only with `--cfg woodpile_verif`):
+/// the same `EncoderState` / `DecoderState` machinery as [`Encoder`] and
+/// [`Decoder`], with caller-chosen chunk size limits instead of the
+/// production ones, so that chunk-boundary behaviour is reachable with
+/// tiny inputs.
+#[cfg(woodpile_verif)]
+pub mod verif {
+    use super::*;
+
+    fn make_params(max_initial_size: usize, max_subsequent_size: usize) -> Option<Parameters> {
+        if !(1..RADIX).contains(&max_initial_size)
+            || !(1..RADIX * RADIX).contains(&max_subsequent_size)
+        {
+            return None;
+        }
+
+        Some(Parameters {
+            max_initial_size: NonZeroUsize::new(max_initial_size)?,
+            max_subsequent_size: NonZeroUsize::new(max_subsequent_size)?,
+        })
+    }
+
+    /// [`Encoder`] with custom chunk size limits.
+    pub struct VerifEncoder<'this> {
+        state: EncoderState,
+        iovec: OwningIovec<'this>,
+        params: Parameters,
+    }
+
+    impl<'this> VerifEncoder<'this> {
+        /// Like [`Encoder::new_from_iovec`]; `None` if the limits are out of range.
+        pub fn new_from_iovec(
+            mut iovec: OwningIovec<'this>,
+            max_initial_size: usize,
+            max_subsequent_size: usize,
+        ) -> Option<Self> {
+            let params = make_params(max_initial_size, max_subsequent_size)?;
+            Some(VerifEncoder {
+                state: EncoderState::new(&mut iovec, params),
+                iovec,
+                params,
+            })
+        }
+
+        /// See [`Encoder::consumer`].
+        pub fn consumer(&mut self) -> ConsumingIovec<'_> {
+            self.iovec.consumer()
+        }
+
+        /// Read-only access to the output so far.
+        pub fn iovec(&self) -> &OwningIovec<'this> {
+            &self.iovec
+        }
+
+        /// See [`Encoder::encode`].
+        pub fn encode(&mut self, data: &'this [u8]) {
+            let mut state = Default::default();
+            std::mem::swap(&mut state, &mut self.state);
+            self.state = state.encode_borrow(&mut self.iovec, self.params, data);
+        }
+
+        /// See [`Encoder::encode_copy`].
+        pub fn encode_copy(&mut self, data: &[u8]) {
+            let mut state = Default::default();
+            std::mem::swap(&mut state, &mut self.state);
+            self.state = state.encode_copy(&mut self.iovec, self.params, data);
+        }
+
+        /// See [`Encoder::encode_anchored`].
+        pub fn encode_anchored(&mut self, data: AnchoredSlice) {
+            let (_, slice, anchor) = unsafe { data.components() };
+
+            if slice.is_empty() {
+                return;
+            }
+
+            self.encode(slice);
+            self.iovec.push_anchor(anchor);
+        }
+
+        /// See [`Encoder::read_n`].
+        pub fn read_n(
+            &mut self,
+            reader: impl Read,
+            count: usize,
+            attempts: NonZeroUsize,
+        ) -> std::io::Result<AnchoredSlice> {
+            self.iovec.arena().read_n(reader, count, attempts)
+        }
+
+        /// See [`Encoder::finish`].
+        pub fn finish(mut self) -> OwningIovec<'this> {
+            self.state.terminate(&mut self.iovec);
+            self.iovec
+        }
+    }
+
+    /// [`Decoder`] with custom chunk size limits.
+    pub struct VerifDecoder<'this> {
+        state: DecoderState,
+        iovec: OwningIovec<'this>,
+        params: Parameters,
+    }
+
+    impl<'this> VerifDecoder<'this> {
+        /// Like [`Decoder::new_from_iovec`]; `None` if the limits are out of range.
+        pub fn new_from_iovec(
+            iovec: OwningIovec<'this>,
+            max_initial_size: usize,
+            max_subsequent_size: usize,
+        ) -> Option<Self> {
+            let params = make_params(max_initial_size, max_subsequent_size)?;
+            Some(VerifDecoder {
+                state: DecoderState::new(),
+                iovec,
+                params,
+            })
+        }
+
+        /// See [`Decoder::consumer`].
+        pub fn consumer(&mut self) -> ConsumingIovec<'_> {
+            self.iovec.consumer()
+        }
+
+        /// Read-only access to the output so far.
+        pub fn iovec(&self) -> &OwningIovec<'this> {
+            &self.iovec
+        }
+
+        /// See [`Decoder::decode`].
+        pub fn decode(&mut self, data: &'this [u8]) -> Result<(), DecodingError> {
+            let mut state = Default::default();
+            std::mem::swap(&mut state, &mut self.state);
+            self.state = state.decode_borrow(&mut self.iovec, self.params, data)?;
+            Ok(())
+        }
+
+        /// See [`Decoder::decode_copy`].
+        pub fn decode_copy(&mut self, data: &[u8]) -> Result<(), DecodingError> {
+            let mut state = Default::default();
+            std::mem::swap(&mut state, &mut self.state);
+            self.state = state.decode_copy(&mut self.iovec, self.params, data)?;
+            Ok(())
+        }
+
+        /// See [`Decoder::decode_anchored`].
+        pub fn decode_anchored(&mut self, data: AnchoredSlice) -> Result<(), DecodingError> {
+            let (_, slice, anchor) = unsafe { data.components() };
+
+            if slice.is_empty() {
+                return Ok(());
+            }
+
+            let ret = self.decode(slice);
+            self.iovec.push_anchor(anchor);
+            ret
+        }
+
+        /// See [`Decoder::read_n`].
+        pub fn read_n(
+            &mut self,
+            reader: impl Read,
+            count: usize,
+            attempts: NonZeroUsize,
+        ) -> std::io::Result<AnchoredSlice> {
+            self.iovec.arena().read_n(reader, count, attempts)
+        }
+
+        /// See [`Decoder::finish`].
+        pub fn finish(self) -> Result<OwningIovec<'this>, DecodingError> {
+            self.state.terminate()?;
+            Ok(self.iovec)
+        }
+    }
+}
+
 #[cfg(test)]
 struct BadReader {
     count: usize, // first invocation is successful.
